@@ -1,3 +1,4 @@
+mod c04;
 mod c05;
 mod c06;
 mod c11;
@@ -23,6 +24,7 @@ fn main() {
     tool::install_panic_hook();
     match args[0].as_str() {
         "extract" => extract::main(&args[1..]),
+        "C04" => c04::main(&args[1..]),
         "C05" => c05::main(&args[1..]),
         "C06" => c06::main(&args[1..]),
         "C11" => c11::main(&args[1..]),
